@@ -19,11 +19,13 @@ pub struct Cfg {
     pub p_mortal:   u64,
     pub p_stale:    u64,
     pub p_prefire:  u64,
+    /// percent of bodies that keep a waker clone behind / fire the kept wakers while they execute (late wakes from an event source)
+    pub p_stash:    u64,
 }
 
 impl Cfg {
     pub fn base() -> Cfg {
-        Cfg { pools: vec![0, 1, 1, 2, 2, 3], max_obj: 3, max_threads: 4, max_ops: 6, w: [6, 5, 3, 6, 2, 4, 1], p_nest: 15, p_gate: 35, p_yield: 25, p_mortal: 20, p_stale: 10, p_prefire: 15 }
+        Cfg { pools: vec![0, 1, 1, 2, 2, 3], max_obj: 3, max_threads: 4, max_ops: 6, w: [6, 5, 3, 6, 2, 4, 1], p_nest: 15, p_gate: 35, p_yield: 25, p_mortal: 20, p_stale: 10, p_prefire: 15, p_stash: 6 }
     }
 }
 
@@ -35,10 +37,10 @@ pub fn cfg_for(profile: &str, miri: bool) -> Cfg {
         "C03" => { c.w = [10, 2, 2, 8, 2, 1, 0]; c.pools = vec![1, 1, 2, 2, 3]; c.p_nest = 30; c.p_mortal = 5; }
         "C04" => { c.w = [5, 12, 1, 5, 1, 2, 0]; c.pools = vec![0, 0, 1, 1, 2, 3]; c.max_obj = 2; }
         "C05" => { c.p_mortal = 100; c.w = [8, 3, 1, 8, 2, 2, 0]; }
-        "C06" => { c.w = [4, 5, 1, 10, 4, 4, 0]; c.p_gate = 70; c.p_yield = 50; c.p_stale = 25; c.max_obj = 2; }
+        "C06" => { c.w = [4, 5, 1, 10, 4, 4, 0]; c.p_gate = 70; c.p_yield = 50; c.p_stale = 25; c.max_obj = 2; c.p_stash = 15; }
         "C07" => { c.w = [4, 3, 1, 14, 5, 1, 0]; c.p_gate = 45; c.max_obj = 2; }
         "C08" => { c.w = [4, 3, 1, 5, 1, 14, 0]; c.p_gate = 50; c.p_yield = 40; c.max_obj = 2; }
-        "C09" => { c.w = [6, 6, 12, 5, 1, 2, 0]; c.max_obj = 2; c.p_mortal = 5; }
+        "C09" => { c.w = [6, 6, 12, 5, 1, 2, 0]; c.max_obj = 2; c.p_mortal = 5; c.p_stash = 25; }
         "C13" => { c.w = [6, 5, 2, 5, 1, 2, 7]; c.max_obj = 2; c.p_mortal = 5; }
         "C14" => { c.w = [5, 7, 3, 6, 2, 7, 1]; c.p_mortal = 50; }
         "C17" => { c.w = [10, 3, 1, 6, 1, 1, 0]; c.pools = vec![0, 1, 2, 3]; c.max_obj = 3; c.p_mortal = 0; }
@@ -57,6 +59,10 @@ impl<'a> Gen<'a> {
     /// A body for a closure (is_future = false) or future operation on `obj`
     fn body(&mut self, obj: usize, is_future: bool, depth: usize, parent: Option<OpId>) -> Vec<Step> {
         let mut steps = vec![Step::Touch];
+        if self.rng.below(100) < self.cfg.p_stash {
+            // an event source that keeps a waker of an operation after that operation is over, and calls it at some later time
+            if is_future && self.rng.chance(1, 2) { steps.push(Step::StashWaker); } else { steps.push(Step::FireStashed); steps.push(Step::Pause); }
+        }
         let extra = self.rng.below(3);
         for _ in 0..extra {
             let r = self.rng.below(100);
@@ -372,6 +378,29 @@ pub fn t_holds(rng: &mut Rng, profile: &'static str, run_seed: u64, miri: bool, 
     prog
 }
 
+/// C10: work is pending on several objects while no pool thread is allowed; then the maximum is raised with `set_max_threads(n)`.
+/// k < n of the objects block on holds: everything else must still complete
+pub fn t_raise(rng: &mut Rng, profile: &'static str, run_seed: u64, miri: bool) -> Program {
+    let mut prog = Program::new(run_seed, profile, "raise_maximum_with_work_pending");
+    prog.pool = 0;
+    prog.pool_mode = PoolMode::Fresh;
+    let n = rng.range(2, 3) as usize;
+    let k = rng.range(1, n as u64 - 1) as usize;
+    let n_free = rng.range(1, if miri { 1 } else { 2 }) as usize;
+    prog.n_obj = k + n_free;
+    prog.held_objs = (0..k).collect();
+    let mut occupy = vec![];
+    // phase 0 (no pool thread): everything is only queued; the order in which the queues are scheduled is shuffled
+    let mut acts: Vec<TAct> = vec![];
+    for o in 0..k { let h = prog.new_hold(); occupy.push(h); let id = prog.add_op(o, Kind::Desync, Disp::None, vec![Step::Touch, Step::Hold(h), Step::Touch]); acts.push(TAct::Op(id)); }
+    for o in k..k + n_free { for _ in 0..rng.range(1, 2) { let id = prog.add_op(o, Kind::Desync, Disp::None, vec![Step::Touch]); acts.push(TAct::Op(id)); } }
+    rng.shuffle(&mut acts);
+    prog.threads.push(acts);
+    prog.phases.push(Phase { name: "maximum_raised_eagerly", reconfig: Some(n), eager: true, occupy, free_must_complete: true, ..Default::default() });
+    finish_firer(rng, &mut prog, 0);
+    prog
+}
+
 /// C09: a try_sync issued while a gated operation occupies the object; the gate is opened only after try_sync has returned
 pub fn t_try_block(rng: &mut Rng, profile: &'static str, run_seed: u64, miri: bool) -> Program {
     let mut prog = Program::new(run_seed, profile, "try_sync_must_not_block");
@@ -462,7 +491,7 @@ pub fn t_pipe(rng: &mut Rng, profile: &'static str, run_seed: u64, miri: bool, t
     let preloaded = rng.below(n_items as u64 + 1).min(if rng.chance(1, 2) { 0 } else { 8 }) as usize;
     let close = !drop_output && rng.chance(4, 5);
     let preclosed = close && preloaded == n_items && rng.chance(1, 2);
-    prog.pipes.push(PipeDef { obj: 0, through, depth, items: items.clone(), preloaded, preclosed, mpsc: !drop_output && rng.chance(1, 4), register_first: rng.chance(1, 3) });
+    prog.pipes.push(PipeDef { obj: 0, through, depth, items: items.clone(), preloaded, preclosed, mpsc: !drop_output && rng.chance(1, 4), register_first: rng.chance(1, 3), chain_to: None });
     // creator / consumer thread
     let mut t0 = vec![TAct::PipeCreate(0)];
     if through {
@@ -509,6 +538,31 @@ pub fn t_pipe(rng: &mut Rng, profile: &'static str, run_seed: u64, miri: bool, t
     let mut gates: Vec<usize> = (0..prog.n_gates).collect();
     rng.shuffle(&mut gates);
     for g in gates { if rng.below(100) < 10 { prog.prefired.push(g); } else { prog.fire.push(FAct::Fire(g)); } }
+    prog
+}
+
+/// C11: two pipe_in pipes in a forwarding chain: the closure of the first owns the feeding end of the second. Both inputs stay open
+/// during the run; they are ended (first -> second) once both targets are gone, so the second pipe's last stream event arrives from
+/// inside the disposal of the first
+pub fn t_pipe_chain(rng: &mut Rng, profile: &'static str, run_seed: u64, miri: bool) -> Program {
+    let mut prog = Program::new(run_seed, profile, "pipe_in_chain");
+    prog.pool = *rng.pick(&[1usize, 2, 3]);
+    prog.pool_mode = *rng.pick(&[PoolMode::Warm, PoolMode::Fresh]);
+    prog.n_obj = 2;
+    for p in 0..2usize {
+        let n_items = rng.range(0, if miri { 2 } else { 5 }) as usize;
+        let mut items = vec![];
+        for _ in 0..n_items { let b = item_body(rng, &mut prog, 10); let id = prog.add_op(p, Kind::PipeItem, Disp::None, b); prog.ops[id].pipe = Some(p); items.push(id); }
+        for _ in 0..n_items { prog.pusher.push(FAct::Item(p)); }
+        prog.pipes.push(PipeDef { obj: p, through: false, depth: 5, items, preloaded: 0, preclosed: false, mpsc: false, register_first: rng.chance(1, 2), chain_to: if p == 0 { Some(1) } else { None } });
+    }
+    let mut pusher = std::mem::take(&mut prog.pusher);
+    rng.shuffle(&mut pusher);
+    prog.pusher = pusher;
+    prog.threads.push(vec![TAct::PipeCreate(0), TAct::PipeCreate(1)]);
+    let mut gates: Vec<usize> = (0..prog.n_gates).collect();
+    rng.shuffle(&mut gates);
+    for g in gates { prog.fire.push(FAct::Fire(g)); }
     prog
 }
 
@@ -574,8 +628,8 @@ pub fn generate(profile: &'static str, rng: &mut Rng, run_seed: u64, miri: bool)
         "C03" => if r < 45 { t_dormant(rng, profile, run_seed, miri) } else { mixed(rng, profile, &cfg, run_seed) },
         "C04" => if r < 35 { t_multisync(rng, profile, run_seed, miri) } else if r < 55 { t_holds(rng, profile, run_seed, miri, true) } else { mixed(rng, profile, &cfg, run_seed) },
         "C09" => if r < 25 { t_try_block(rng, profile, run_seed, miri) } else if r < 50 { t_try_hammer(rng, profile, run_seed, miri) } else { mixed(rng, profile, &cfg, run_seed) },
-        "C10" => t_holds(rng, profile, run_seed, miri, false),
-        "C11" => t_pipe(rng, profile, run_seed, miri, false, false),
+        "C10" => if r < 25 { t_raise(rng, profile, run_seed, miri) } else { t_holds(rng, profile, run_seed, miri, false) },
+        "C11" => if r < 12 { t_pipe_chain(rng, profile, run_seed, miri) } else { t_pipe(rng, profile, run_seed, miri, false, false) },
         "C12" => t_pipe(rng, profile, run_seed, miri, true, false),
         "C16" => t_pipe(rng, profile, run_seed, miri, true, true),
         "C05" => if r < 20 { t_pipe(rng, profile, run_seed, miri, false, false) } else { mixed(rng, profile, &cfg, run_seed) },
